@@ -8,6 +8,8 @@ use std::panic::{catch_unwind, AssertUnwindSafe};
 pub enum FsOp {
     Copy(U),
     Extend(Vec<U>),
+    /// extend from an iterator whose size_hint is (0, Some(usize::MAX))
+    ExtendLazy(Vec<U>),
     FromIter(Vec<U>),
     Clear,
     Reserve(usize),
@@ -24,6 +26,7 @@ pub fn parse_fs_op(s: &str) -> Result<FsOp, String> {
     Ok(match p.as_slice() {
         ["copy", v] => FsOp::Copy(U::parse(v)?),
         ["extend", l] => FsOp::Extend(list(l)?),
+        ["extendlazy", l] => FsOp::ExtendLazy(list(l)?),
         ["fromiter", l] => FsOp::FromIter(list(l)?),
         ["clear"] => FsOp::Clear,
         ["reserve", n] => FsOp::Reserve(usize::from_str_radix(n, 16).map_err(|e| e.to_string())?),
@@ -70,6 +73,17 @@ where
                     Some(()) => out.push(U::None),
                     None => stop!(PANIC),
                 },
+            },
+            FsOp::ExtendLazy(us) => match us.iter().map(R::of_u).collect::<Option<Vec<_>>>() {
+                None => stop!(ILL),
+                Some(vs) => {
+                    let n = vs.len();
+                    let it = (0..usize::MAX).take_while(move |i| *i < n).map(|i| &vs[i]);
+                    match caught(|| fs.extend(it)) {
+                        Some(()) => out.push(U::None),
+                        None => stop!(PANIC),
+                    }
+                }
             },
             FsOp::FromIter(us) => match us.iter().map(R::of_u).collect::<Option<Vec<_>>>() {
                 None => stop!(ILL),
